@@ -11,6 +11,7 @@ fn describe(wasm: &[u8]) -> Result<Sig> {
     let mut types: Vec<String> = vec![];
     let mut func_types: Vec<u32> = vec![];
     let mut n_imp_funcs = 0u32;
+    let mut imp_func_names: Vec<String> = vec![];
     let mut tables: Vec<String> = vec![];
     let mut mems: Vec<String> = vec![];
     let mut globals: Vec<String> = vec![];
@@ -25,7 +26,7 @@ fn describe(wasm: &[u8]) -> Result<Sig> {
             Payload::ImportSection(s) => for i in s {
                 let i = i?;
                 match i.ty {
-                    TypeRef::Func(t) => { func_types.push(t); n_imp_funcs += 1; }
+                    TypeRef::Func(t) => { func_types.push(t); n_imp_funcs += 1; imp_func_names.push(format!("{}.{}", i.module, i.name)); }
                     TypeRef::Table(t) => tables.push(format!("import {}.{} {}", i.module, i.name, t.initial)),
                     TypeRef::Memory(m) => mems.push(format!("import {}.{} {}", i.module, i.name, m.initial)),
                     TypeRef::Global(g) => globals.push(format!("import {}.{} {:?}", i.module, i.name, g.content_type)),
@@ -80,7 +81,7 @@ fn describe(wasm: &[u8]) -> Result<Sig> {
     // function attribute: its signature and (for local functions) the first constant of its body
     let func_attr = |idx: u32| -> String {
         let sig = func_types.get(idx as usize).and_then(|t| types.get(*t as usize)).cloned().unwrap_or_default();
-        if idx < n_imp_funcs { format!("import#{idx} {sig}") } else {
+        if idx < n_imp_funcs { format!("import {} {sig}", imp_func_names[idx as usize]) } else {
             let b = &bodies[(idx - n_imp_funcs) as usize].0;
             format!("{} {}", sig, b.iter().find(|o| o.starts_with("I32Const")).cloned().unwrap_or_default())
         }
@@ -98,7 +99,7 @@ fn describe(wasm: &[u8]) -> Result<Sig> {
             "local" => {
                 // attribute of a local: parameter position, or the constant the body stores into it
                 let l = sub.unwrap();
-                let nparams = func_types.get(*idx as usize).and_then(|t| types.get(*t as usize)).map(|s| s.split("->").next().unwrap().matches("I32").count() + s.split("->").next().unwrap().matches("I64").count()).unwrap_or(0) as u32;
+                let nparams = func_types.get(*idx as usize).and_then(|t| types.get(*t as usize)).map(|s| { let p = s.split("->").next().unwrap(); if p == "[]" { 0 } else { p.matches(',').count() + 1 } }).unwrap_or(0) as u32;
                 let who = func_name_of(*idx);
                 if l < nparams { format!("{who} param {l}") } else if *idx >= n_imp_funcs {
                     let b = &bodies[(*idx - n_imp_funcs) as usize].0;
@@ -143,6 +144,22 @@ pub const CORPUS: &[(&str, &str)] = &[
     ("unused-param-names", r#"(module
         (func $f (export "f") (param $used i32) (param $unused i64) (param $also_used i32) (result i32)
             (i32.add (local.get $used) (local.get $also_used))))"#),
+    ("locals-declared-against-type-order", r#"(module
+        (func $f (export "f") (param $p f32) (local $a i64) (local $b i32) (local $c f64) (local $d i32) (local $e i64)
+            (local.set $a (i64.const 1)) (local.set $b (i32.const 2)) (local.set $c (f64.const 3)) (local.set $d (i32.const 4)) (local.set $e (i64.const 5)) (drop (local.get $p)))
+        (func $g (export "g") (local $x f32) (local $y i32) (local.set $x (f32.const 6)) (local.set $y (i32.const 7))))"#),
+    ("unnamed-dead-entities-before-named-live-ones", r#"(module
+        (type (func (param f64 f64 f64)))
+        (type $sig (func (param i32) (result i32)))
+        (import "e" "dead_import" (func (param i64)))
+        (import "e" "live_import" (func $live_import (param i32)))
+        (func (param i32) (result i32) (i32.const 999))
+        (func $live (export "live") (type $sig) (i32.const 1000) (drop) (call $live_import (local.get 0)) (local.get 0))
+        (global i32 (i32.const 5)) (global $gl (export "gl") i32 (i32.const 6))
+        (table 7 funcref) (table $tl (export "tl") 8 funcref)
+        (memory 3) (memory $ml (export "ml") 4)
+        (data "dead-passive-1") (data "dead-passive-2") (data $dl (memory $ml) (i32.const 0) "live-active") (data $dl2 (memory $ml) (i32.const 16) "live-active-2")
+        (elem func $live) (elem $el (table $tl) (i32.const 0) func $live $live) (elem $el2 (table $tl) (i32.const 2) func $live))"#),
     ("partial-names", r#"(module
         (func $anon (export "anon") (param i32) (local $only_local i32) (local.set $only_local (i32.const 7)))
         (func $named (export "n") (param $p i32) (drop (local.get $p)) (i32.const 8) (drop) (i32.const 9) (drop)))"#),
